@@ -258,6 +258,9 @@ pub fn run_lane(cfg: &LaneCfg) -> LaneResult {
     res.groups = rep.groups.clone();
     res.combos = sweep::COMBOS.lock().unwrap().clone();
     if let Some(st) = shim_stats() {
+        if matches!(fault, Fault::GsoErr(..)) && st["sendmsg_gso_failed"].as_u64() == Some(0) {
+            res.tool_failure = Some("fault shim never failed a UDP_SEGMENT sendmsg although the lane asked for it".into());
+        }
         res.extra.insert("shim_stats".into(), st);
     } else if fault != Fault::None {
         res.tool_failure = Some("fault shim not loaded (faultudp_stats symbol missing)".into());
